@@ -199,6 +199,7 @@ type vfWorld struct {
 	cacheSynced   map[string]bool
 	agentSim      *vfAgent
 	okta          *simOkta
+	clientLog     *bytes.Buffer
 	readsDown     bool
 	readsDownDigest string
 	returnedCerts map[string]int
